@@ -343,7 +343,8 @@ class Sim:
 
 # ---- request generator ----------------------------------------------------------------------------------
 
-COLLS = [["u"], ["u", "c1"], ["u", "c2"], ["u", "ab"], ["u", "p"], ["u", "p", "c3"], ["u", "new"], ["v"], ["v", "c1"]]
+COLLS = [["u"], ["u", "c1"], ["u", "c2"], ["u", "ab"], ["u", "p"], ["u", "p", "c3"], ["u", "new"], ["v"], ["v", "c1"],
+         ["u", "c1", "sub"], ["u", "ab", "sub"]]       # (the last two: collections asked for below what usually is a calendar / an address book)
 HREFS = ["a.ics", "b.ics", "u1.ics", "u2.ics", "k.vcf", "u5.vcf", "zz"]
 
 
@@ -358,6 +359,18 @@ def warmup(rng):
             {"method": "MKCALENDAR", "path": ["u", "c2"], "props": []},
             {"method": "PUT", "path": ["u", "c2", "c.ics"], "body": "cal", "objs": [cal("u3")]},     # the same UID in two calendars
             {"method": "PUT", "path": ["u", "ab", "k.vcf"], "body": "cards", "objs": [rng.choice([o for o in POOL if o["kind"] == "VCARD"])]}]
+    if rng.random() < 0.3:
+        # a calendar uploaded as a whole, read, and replaced as a whole by objects with the same UIDs (hence the same member names) and
+        # other content of the same length - what a client does that always syncs the whole calendar
+        ev = [o for o in POOL if o["uid"] in ("u1", "u2") and o["kind"] == "VEVENT"]
+        first = [ev[0], ev[2]]
+        second = [ev[1], ev[3]]
+        return [{"method": "PUT", "path": ["u", "c1"], "as_collection": True, "body": "cal", "objs": first},
+                {"method": "GET", "path": ["u", "c1", "u1.ics"], "as_collection": False},
+                {"method": "GET", "path": ["u", "c1", "u2.ics"], "as_collection": False},
+                {"method": "PUT", "path": ["u", "c1"], "as_collection": True, "body": "cal", "objs": second},
+                {"method": "GET", "path": ["u", "c1", "u1.ics"], "as_collection": False},
+                {"method": "GET", "path": ["u", "c1"], "as_collection": False}]
     return reqs[:rng.randint(2, len(reqs))]
 
 
